@@ -326,6 +326,12 @@ pub fn validate(arch: Arch, text: &str) -> Result<(), String> {
     Ok(())
 }
 
+/// a jump to a label (not through a register)
+fn reg_free_jump(l: &str) -> bool {
+    let t = l.trim_start_matches("jmp ").trim_start_matches("near ").trim();
+    crate::emu_x86::reg_index(t).is_none()
+}
+
 /// jump tables of the x86-64 text: (table label, number of entries, label following the table)
 pub fn x86_tables(text: &str) -> Vec<(String, usize, String)> {
     let mut out = vec![];
@@ -333,13 +339,19 @@ pub fn x86_tables(text: &str) -> Vec<(String, usize, String)> {
     let mut i = 0;
     while i < lines.len() {
         if let Some(name) = is_label_line(lines[i]) {
+            // a table: a label followed by consecutive unconditional jumps (two or more, or one
+            // `jmp near`); ordinary code never has two unconditional jumps in a row
             let mut j = i + 1;
             let mut n = 0;
-            while j < lines.len() && lines[j].starts_with("jmp near ") {
+            let mut near = 0;
+            while j < lines.len() && lines[j].starts_with("jmp ") && reg_free_jump(lines[j]) {
                 n += 1;
+                if lines[j].starts_with("jmp near ") {
+                    near += 1;
+                }
                 j += 1;
             }
-            if n > 0 && j < lines.len() {
+            if (n >= 2 || near == 1) && j < lines.len() {
                 if let Some(next) = is_label_line(lines[j]) {
                     out.push((name.to_string(), n, next.to_string()));
                 }
